@@ -80,7 +80,7 @@ Proof.
   - exact I.
   - destruct (find_dur _ _) as [[?|?]|]; exact I.
   - destruct (has_prefix _ _); exact I.
-  - exact I.
+  - destruct (has_prefix _ _); exact I.
 Qed.
 
 Lemma convert_no_err orc b ty : forall v cur, no_err (convert orc b v ty cur).
